@@ -21,7 +21,7 @@ import prox_cases as pc
 import prox_gen as pg
 
 PROP = "C02"
-CLAIMED = False
+CLAIMED = True
 ENGINE = "Prox"
 DESIGN_REF = "DESIGN.md §5.2"
 TECHNIQUE = (
